@@ -991,8 +991,8 @@ v("d85-sqlite-modulo-through-double", "C05", "SQLite.py",
   "        f\"(CASE WHEN (typeof({e0}) = 'integer') AND (typeof({e1}) = 'integer')\"\n        f\" THEN ((({e0} % {e1}) + {e1}) % {e1})\"\n        f\" ELSE ({e0} - FLOOR({e0} / (1.0 * {e1})) * {e1}) END)\"\n",
   "        f\"({e0} - FLOOR({e0} / (1.0 * {e1})) * {e1})\"\n")
 v("d88-hash-reads-columns-by-label", "C25", EC,
-  "        [type(v).__name__ for v in d.iloc[:, j]]\n        for j in range(d.shape[1])\n        if str(d.iloc[:, j].dtype) in (\"object\", \"category\")\n",
-  "        [type(v).__name__ for v in d[c]]\n        for c in d.columns\n        if str(d[c].dtype) in (\"object\", \"category\")\n")
+  "        [type(v).__name__ for v in d.iloc[:, j]]\n        if str(d.iloc[:, j].dtype) == \"object\"\n        else [type(v).__name__ for v in d.iloc[:, j].cat.categories]\n        for j in range(d.shape[1])\n        if str(d.iloc[:, j].dtype) in (\"object\", \"category\")\n",
+  "        [type(v).__name__ for v in d[c]]\n        if str(d[c].dtype) == \"object\"\n        else [type(v).__name__ for v in d[c].cat.categories]\n        for c in d.columns\n        if str(d[c].dtype) in (\"object\", \"category\")\n")
 v("d89-bound-kwargs-not-flattened", "C22", DS,
   "                    if p_def.kind is p_def.VAR_KEYWORD:\n                        # keywords caught by **kwargs are named arguments\n                        extra_keywords = check_kwargs.pop(p_name, {})\n                    elif p_def.kind is p_def.VAR_POSITIONAL:",
   "                    if p_def.kind is p_def.VAR_POSITIONAL:")
@@ -1123,11 +1123,11 @@ v("d127-ungrouped-first-through-series-agg", "C09", PB, "                    if 
 
 v("d128-sqlite-math-raises", "C05", SQ, "        except (ValueError, OverflowError, ZeroDivisionError):\n            # math.log(0)", "        except (KeyError,):\n            # math.log(0)")
 
-v("d129-floor-division-on-sql-slash", "C05", SM, "    return f\"FLOOR({e0} / CAST({e1} AS {dbmodel.float_type}))\"", "    return f\"FLOOR({e0} / {e1})\"")
-v("d151-floor-division-decimal-literal", "C05", SM, "    return f\"FLOOR({e0} / CAST({e1} AS {dbmodel.float_type}))\"", "    return f\"FLOOR({e0} / (1.0 * {e1}))\"")
+v("d129-floor-division-on-sql-slash", "C05", SM, "    ratio = (expression.args[0].float_divide(expression.args[1])).floor()", "    ratio = (expression.args[0] / expression.args[1]).floor()")
+v("d153-spark-float-division-decimal-literal", "C05", SP, "    return f\"({e0} / CAST({e1} AS DOUBLE))\"", "    return f\"({e0} / (1.0 * {e1}))\"")
 v("d151-sqlite-round-away-from-zero", "C05", SQ, "    return float(round(x))\n", "    return float(math.floor(abs(x) + 0.5)) * (1.0 if x >= 0 else -1.0)\n")
 
-v("d130-where-raw-condition", "C05", PB, "    return numpy.where(_true_positions(cond), a, b)", "    return numpy.where(cond, a, b)")
+v("d130-where-raw-condition", "C05", PB, "    return _none_for_missing(numpy.where(_true_positions(cond), a, b))", "    return _none_for_missing(numpy.where(cond, a, b))")
 
 v("d131-polars-is-inf-null", "C03", PM, "        \"is_inf\": lambda x: x.is_infinite().fill_null(\n            False\n        ),", "        \"is_inf\": lambda x: x.is_infinite(),")
 
@@ -1149,18 +1149,18 @@ v("d138-project-accepts-row-wise-methods", "C26", VR, "                    not i
 
 v("d138-window-accepts-row-wise-methods", "C26", VR, "                    not in data_algebra.expr_rep.fn_names_of_window_functions\n                ):", "                    in set()\n                ):")
 
-v("d139-and-or-object-result", "C05", PB, "            return self.pd.Series(a).astype(\"boolean\")", "            return self.pd.Series(a).astype(object)")
+v("d139-and-or-object-result", "C05", PB, "            return a.astype(\"boolean\")\n", "            return a.astype(object)\n")
 v("d140-condition-filled-with-bool", "C05", PB, "            return cond.to_numpy(dtype=bool, na_value=False)", "            return cond.fillna(False).to_numpy(dtype=bool)")
 v("d141-not-is-identity", "C05", PB, "    return a == False\n", "    return a != False\n")
-v("d142-function-form-direct", "C13", PBLK, "                        return getattr(args[0], op_name)(*args[1:])\n", "                        pass\n")
+v("d142-function-form-direct", "C13", PBLK, "                        if isinstance(built, data_algebra.expr_rep.PreTerm):\n                            return built\n", "")
 v("d143-argument-placeholder-walked", "C13", PBLK, "                    args = [_r_walk_lark_tree(ai) for ai in raw_args if ai is not None]", "                    args = [_r_walk_lark_tree(ai) for ai in raw_args]")
-v("d144-list-items-raw", "C12", ER2, "        self.value = [vi if isinstance(vi, PreTerm) else Value(vi) for vi in value]", "        self.value = list(value)")
+v("d144-list-items-raw", "C12", ER2, "        self.value = [as_term(vi) for vi in value]", "        self.value = list(value)")
 
 v("d145-polars-join-order-unstated", "C19", PM, "                suffix=\"_da_right_tmp\",\n                **_join_order_args,\n", "                suffix=\"_da_right_tmp\",\n")
 v("d145-polars-swapped-join-order-unstated", "C19", PM, "                suffix=\"_da_left_tmp\",\n                **_join_order_args,\n", "                suffix=\"_da_left_tmp\",\n")
 
 ECF = "eval_cache.py"
-v("d146-category-cells-not-typed", "C25", ECF, "        if str(d.iloc[:, j].dtype) in (\"object\", \"category\")", "        if str(d.iloc[:, j].dtype) in (\"object\",)")
+v("d146-category-cells-not-typed", "C25", ECF, "        if str(d.iloc[:, j].dtype) in (\"object\", \"category\")\n", "        if str(d.iloc[:, j].dtype) in (\"object\",)\n")
 v("d146-category-value-dtype-missing", "C25", ECF, "        str(t) if str(t) != \"category\" else f\"category[{t.categories.dtype}]\"\n", "        str(t)\n")
 
 v("d147-uniform-accepted-in-project", "C26", ER2, "    \"uniform\",  # one draw per row, not an aggregation\n    \"_uniform\",\n", "")
@@ -1168,4 +1168,12 @@ v("d147-uniform-accepted-in-project", "C26", ER2, "    \"uniform\",  # one draw 
 SOL = "solutions.py"
 v("d148-mark-pasted-between-quotes", "C14", SOL, "{source_id_column} == {_literal_text(state_row_mark)}).if_else(None, {k})\"", "{source_id_column} == \\\"{state_row_mark}\\\").if_else(None, {k})\"")
 v("d149-spark-literal-keeps-dollar-brace", "C14", SP, "            .replace(\"${\", \"$\\\\{\")\n", "")
-v("d150-sqlite-true-false-not-refused", "C14", SQ, "        if identifier.lower() in [\"true\", \"false\"]:", "        if identifier.lower() in []:")
+
+v("d159-is-in-masked-column", "C05", PB, "    if hasattr(a, \"isin\") and hasattr(getattr(a, \"dtype\", None), \"na_value\"):\n        # a nullable (masked) column: numpy can not compare its missing entries, which are in no set\n        return numpy.asarray(a.isin(b), dtype=bool)\n", "")
+v("d160-and-or-numbers-refused", "C05", PB, "            if self.pd.api.types.is_numeric_dtype(a.dtype) and (\n                not self.pd.api.types.is_bool_dtype(a.dtype)\n            ):", "            if False:")
+v("d161-condition-fallback-unread", "C05", PB, "        missing = numpy.asarray(cond.isna(), dtype=bool)\n        if missing.any():\n            # numpy takes nan for a true value\n            values = numpy.array(cond.to_numpy(dtype=object), dtype=object)\n            values[missing] = False\n            return values.astype(bool)\n", "")
+v("d161-where-result-keeps-na", "C05", PB, "    return _none_for_missing(numpy.where(_true_positions(cond), a, b))", "    return numpy.where(_true_positions(cond), a, b)")
+v("d161-if-else-result-keeps-na", "C05", PB, "        res = _none_for_missing(numpy.where(_true_positions(cond), a, b))", "        res = numpy.where(_true_positions(cond), a, b)")
+v("c05-sqlite-mod-sign-of-dividend", "C05", SQ, " THEN ((({e0} % {e1}) + {e1}) % {e1})\"", " THEN ({e0} % {e1})\"")
+v("c05-sqlite-floordiv-truncates", "C05", SQ, " THEN (({e0} / {e1}) - ((({e0} % {e1}) != 0) AND (({e0} < 0) != ({e1} < 0))))\"", " THEN ({e0} / {e1})\"")
+v("c05-sqlite-mod-same-meaning-other-text", "C05", SQ, " THEN ((({e0} % {e1}) + {e1}) % {e1})\"", " THEN (({e0} % {e1}) + (CASE WHEN (({e0} % {e1}) != 0) AND ((({e0} % {e1}) < 0) != ({e1} < 0)) THEN {e1} ELSE 0 END))\"", expect="silent")
